@@ -8,6 +8,7 @@ mutated afterwards to check independence.
 """
 from __future__ import annotations
 
+import copy
 import itertools
 import multiprocessing as mp
 import os
@@ -51,7 +52,7 @@ TREES: Dict[str, Dict[str, Any]] = {
 }
 # T4: namespaces that have a valid_type but were made non-dynamic again afterwards (what e.g. AiiDA does with the inputs
 # namespace of every process), at the top level and nested
-TREES['T4'] = {'a': leaf(1), 'n': ns(1, {'x': leaf(2)}, valid_type=int, dynamic=False),
+TREES['T4'] = {'a': leaf(1), 'n': ns(1, {'x': leaf(2)}, valid_type=int, dynamic=False), 'd': ns(4, {'x': leaf(5)}, default={'x': 1}),
                'm': ns(2, {'y': leaf(3), 'k': ns(3, {}, valid_type=str, dynamic=False)}, valid_type=int)}
 TOP_ATTRS: Dict[str, Dict[str, Any]] = {'T4': {'valid_type': int, 'dynamic': False}}
 DEST_PRE = {'zz_keep': leaf(9), 'zn_keep': ns(9, {'k': leaf(10)})}
@@ -142,7 +143,7 @@ def expected(tree: Dict[str, Any], top_attrs: Dict[str, Any], include: Any, excl
 def build(namespace: pports.PortNamespace, tree: Dict[str, Any], port_cls: type) -> None:
     for name, node in tree.items():
         if isinstance(node, tuple):
-            sub = pports.PortNamespace(name, **node[1])
+            sub = pports.PortNamespace(name, **copy.deepcopy(node[1]))  # (a default mapping is the port's own object)
             sub.dynamic = node[1]['dynamic']  # (the constructor's valid_type makes it dynamic; the description decides)
             namespace[name] = sub
             build(sub, node[2], port_cls)
@@ -163,8 +164,11 @@ def describe(namespace: pports.PortNamespace) -> Dict[str, Any]:
 
 
 def ns_attrs(port: pports.PortNamespace) -> Dict[str, Any]:
-    return {'help': port.help, 'required': port.required, 'dynamic': port.dynamic, 'valid_type': port.valid_type,
-            'populate_defaults': port.populate_defaults}
+    out = {'help': port.help, 'required': port.required, 'dynamic': port.dynamic, 'valid_type': port.valid_type,
+           'populate_defaults': port.populate_defaults}
+    if port.has_default():
+        out['default'] = copy.deepcopy(port.default)
+    return out
 
 
 def normalise(tree: Dict[str, Any]) -> Dict[str, Any]:
@@ -188,6 +192,8 @@ def mutate(namespace: pports.PortNamespace, tag: str) -> None:
             port.populate_defaults = not port.populate_defaults
             mutate(port, tag)
             port[f'{tag}_new'] = pports.Port(f'{tag}_new')
+        if getattr(port, 'has_default', lambda: False)() and isinstance(port.default, dict):
+            port.default[f'{tag}_key'] = tag  # a change made *inside* the default mapping
     namespace.help = f'{tag}-self'
 
 
@@ -298,7 +304,7 @@ def cases(tier: str) -> List[tuple]:
     max_rules = 2 if tier == 'quick' else 3
     out: List[tuple] = []
     for tree_name, tree in TREES.items():
-        for rules in itertools.chain([None], rule_sets(tree, max_rules)):
+        for rules in itertools.chain([None, ()], rule_sets(tree, max_rules)):  # no rules at all, the empty rule set, ...
             for mode in ('include', 'exclude'):
                 if rules is None and mode == 'exclude':
                     continue
